@@ -3,13 +3,13 @@
    set_reading) for every leaf indicator whose _calculate_reading is pure and causal - on
    the base timeframe for any chunking, and on a collapsing timeframe (re-collapse of the
    calculated buckets followed by the new raw candles, then calculate) - and those two
-   obligations are discharged for HLA, TR, OBV, EMA, SMA, RMA, WMA, ROC, Counter and every
+   obligations are discharged for HLA, TR, OBV, EMA, SMA, RMA, WMA, VWMA, ROC, Counter, HL, Donchian, AROON and every
    Amorph-wrapped analysis function (any period >= 1, any input whose lookup does not read
    the indicator's own slot).  For the other indicators and composite ones the property is
    decided by the bit-exact correspondence and the falsifier. *)
 From Coq Require Import ZArith List String Bool.
 From Hexital Require Import Base.Prelude Base.Num Model.Manager Model.Candle Model.Readings Model.Engine
-  Proofs.EngineProofs Proofs.CausalProofs Proofs.AnalysisProofs Proofs.ComposeProofs Proofs.CausalMore Model.Analysis.
+  Proofs.EngineProofs Proofs.CausalProofs Proofs.AnalysisProofs Proofs.ComposeProofs Proofs.CausalMore Proofs.CausalWin Model.Analysis.
 Import ListNotations.
 Local Open Scope Z_scope.
 
@@ -133,3 +133,28 @@ Theorem C01_obligations_WMA : forall (O : NumOps) (I : ind O) period input,
   (forall rec st i, calc_reading O rec I st i = (v <- pure_calc O I st i ;; Ok (v, st))) /\ Causal O I (pure_calc O I).
 Proof. intros O I period input K Hp Hs Ht Hn. split; [intros; eapply wma_pure; exact K|eapply wma_causal; eassumption]. Qed.
 Print Assumptions C01_obligations_WMA.
+
+(* the window indicators call the movement functions highest/lowest(bar): their causality is
+   C16's truncation theorem; VWMA needs the warm-up invariant like WMA.  With these every
+   indicator class without helper series has its obligations discharged. *)
+Theorem C01_obligations_HL : forall (O : NumOps) (I : ind O) period, i_kind O I = K_HL period ->
+  (forall rec st i, calc_reading O rec I st i = (v <- pure_calc O I st i ;; Ok (v, st))) /\ Causal O I (pure_calc O I).
+Proof. intros O I period K. split; [intros; eapply hl_pure; exact K|eapply hl_causal; exact K]. Qed.
+Print Assumptions C01_obligations_HL.
+
+Theorem C01_obligations_DONCHIAN : forall (O : NumOps) (I : ind O) period, i_kind O I = K_DONCHIAN period -> 1 <= period ->
+  (forall rec st i, calc_reading O rec I st i = (v <- pure_calc O I st i ;; Ok (v, st))) /\ Causal O I (pure_calc O I).
+Proof. intros O I period K Hp. split; [intros; eapply donchian_pure; exact K|eapply donchian_causal; eassumption]. Qed.
+Print Assumptions C01_obligations_DONCHIAN.
+
+Theorem C01_obligations_AROON : forall (O : NumOps) (I : ind O) period, i_kind O I = K_AROON period -> 0 <= period ->
+  (forall rec st i, calc_reading O rec I st i = (v <- pure_calc O I st i ;; Ok (v, st))) /\ Causal O I (pure_calc O I).
+Proof. intros O I period K Hp. split; [intros; eapply aroon_pure; exact K|eapply aroon_causal; eassumption]. Qed.
+Print Assumptions C01_obligations_AROON.
+
+Theorem C01_obligations_VWMA : forall (O : NumOps) (I : ind O) period,
+  i_kind O I = K_VWMA period -> 1 <= period -> i_sub O I = false ->
+  (has_dot (i_name O I) = false /\ forall q, candle_attr O q (i_name O I) = None) ->
+  (forall rec st i, calc_reading O rec I st i = (v <- pure_calc O I st i ;; Ok (v, st))) /\ Causal O I (pure_calc O I).
+Proof. intros O I period K Hp Ht Hn. split; [intros; eapply vwma_pure; exact K|eapply vwma_causal; eassumption]. Qed.
+Print Assumptions C01_obligations_VWMA.
